@@ -304,7 +304,7 @@ Theorem section_roundtrip p : params_in_range p ->
     v_table_id v = 252 /\ v_section_length v = lenZ (createSpliceInsertPayload p) - 3 /\
     v_cmd_len v = 20 /\ v_cmd_type v = 5 /\ v_program v = true /\ v_has_dur v = true /\
     v_time_specified v = true /\ v_desc_len v = 0 /\
-    v_pts_adjustment v = (two33 - p_pts p) mod two33.
+    v_pts_adjustment v = 0.
 Proof.
   destruct p as [pts dur ev tier upid av avs cancel out imm auto].
   unfold params_in_range; cbn [p_pts p_dur p_event p_tier p_upid p_avail p_avails p_immediate].
@@ -314,12 +314,8 @@ Proof.
   destruct (dur =? 0) eqn:E; [lia|].
   cbn [negb andb b2z app be32bytes time5 lenZ length Z.of_nat Pos.of_succ_nat Pos.succ].
   rewrite (Z.mod_small pts two33) by lia.
-  set (adj := if 0 >=? pts then 0 - pts else two33 - (pts - 0)).
-  assert (Hadj : adj = (two33 - pts) mod two33 /\ 0 <= adj < two33).
-  { subst adj. unfold two33 in *. destruct (0 >=? pts) eqn:E0.
-    - assert (pts = 0) by lia. subst pts. split; [reflexivity|lia].
-    - rewrite Z.mod_small by lia. lia. }
-  destruct Hadj as [Hadj Hadjr].
+  unfold subtractPTS. rewrite Z.sub_diag.
+  replace (pts >=? pts) with true by lia.
   cbv beta iota delta [decode_section].
   eexists. split; [reflexivity|].
   cbn [params_of_view v_pts_time v_break_dur v_event v_tier v_upid v_avail v_avails v_cancel v_out
@@ -347,7 +343,6 @@ Proof.
   - destruct out; reflexivity.
   - destruct out; reflexivity.
   - unfold bit_set. dm.
-  - rewrite <- Hadj. dm.
 Qed.
 
 (** ** The fields of the event CreateEmsgAhead builds *)
@@ -356,7 +351,7 @@ Lemma ad_seconds_cases n : ad_seconds n = 20 \/ ad_seconds n = 10.
 Proof. unfold ad_seconds. destruct (n =? 1); [now left|now right]. Qed.
 
 Theorem emsg_fields ts n k :
-  0 < ts < two32 -> 20 * ts < two32 -> 0 <= k < two32 -> k * ts * 90000 < two64 ->
+  0 < ts < two32 -> 20 * ts < two32 -> 0 <= k < two32 ->
   let sigma := k * ts in
   let em := emsg_of ts n sigma in
   e_timescale em = ts /\ e_pt em = sigma /\ e_id em = k /\ e_dur em = ad_seconds n * ts /\
@@ -367,9 +362,9 @@ Theorem emsg_fields ts n k :
     v_break_dur v = ad_seconds n * 90000 /\ v_has_dur v = true /\ v_auto v = true /\
     v_out v = true /\ v_cancel v = false /\ v_immediate v = false /\ v_program v = true /\
     v_tier v = 4095 /\ v_upid v = 0 /\ v_avail v = 0 /\ v_avails v = 0 /\ v_desc_len v = 0 /\
-    v_pts_adjustment v = (two33 - v_pts_time v) mod two33.
+    v_pts_adjustment v = 0.
 Proof.
-  intros Hts H20 Hk Hov sigma em.
+  intros Hts H20 Hk sigma em.
   assert (Hdiv : sigma / ts = k) by (subst sigma; apply Z.div_mul; lia).
   assert (Had : u64 (ad_seconds n * ts) = ad_seconds n * ts).
   { apply Z.mod_small. unfold two64, two32 in *. destruct (ad_seconds_cases n) as [-> | ->]; lia. }
@@ -383,8 +378,7 @@ Proof.
                       p_tier := 4095; p_upid := 0; p_avail := 0; p_avails := 0;
                       p_cancel := false; p_out := true; p_immediate := false; p_auto := true |}).
   { subst p. unfold params_for. change pts_clock with 90000. rewrite Hdiv. f_equal.
-    - f_equal. subst sigma. unfold u64. rewrite Z.mod_small by lia.
-      replace (k * ts * 90000) with (k * 90000 * ts) by ring. apply Z.div_mul. lia.
+    - f_equal. unfold u64. apply Z.mod_small. unfold two64, two32 in *. lia.
     - unfold u64. rewrite Z.mod_small.
       + replace (ad_seconds n * ts * 90000) with (ad_seconds n * 90000 * ts) by ring. apply Z.div_mul. lia.
       + unfold two64, two32 in *. destruct (ad_seconds_cases n) as [-> | ->]; lia.
@@ -397,14 +391,12 @@ Proof.
   exists v. split; [exact Hdec|].
   rewrite Hp in Hpv. unfold params_of_view in Hpv.
   injection Hpv as Hpts Hdur Hev Htier Hupid Hav Havs Hcan Hout Himm Hauto.
-  assert (Hpp : p_pts p = v_pts_time v) by (rewrite Hp; cbn [p_pts]; symmetry; exact Hpts).
-  rewrite Hadj, Hpp.
   repeat split; assumption.
 Qed.
 
-(** without the bound k*ts*90000 < 2^64 the pts_time is wrong: uint64 overflow of spliceTime*90000 *)
-Theorem pts_overflow_witness :
+(** the former overflow case (timescale 10^7, second 20497030; repaired by 3532b28): pts_time is right *)
+Example pts_no_overflow_example :
   let ts := 10000000 in let k := 20497030 in
   exists v, decode_section (e_data (emsg_of ts 1 (k * ts))) = Some v /\
-            v_pts_time v <> (k * 90000) mod two33.
-Proof. vm_compute. eexists. split; [reflexivity|]. discriminate. Qed.
+            v_pts_time v = (k * 90000) mod two33 /\ v_pts_adjustment v = 0.
+Proof. vm_compute. eexists. split; [reflexivity|]. split; reflexivity. Qed.
